@@ -23,7 +23,7 @@ LEVEL_TEXT = ("Theorems about the flex functions/kernels regenerated from collis
               "guards of `_write_filtered_contacts` (incl. the includemargin rule) and `_equality_flex`; the trilinear basis is a non-negative partition of unity with linear precision; "
               "`_apply_face_forces` applies zero net force. Stage 3 of `_flex_broadphase` (geom centre vs triangle plane against the bounding radius) is sound for every supported geom type, and the bounding radius dominates the geom; a row of `_equality_flex` dropped for lack of njmax_nnz gets rownnz 0. Flex positions, edge "
               "lengths/velocities, passive forces, edge-equality rows and contacts of the real code are compared with mujoco.mj_forward (sampled).")
-LEVEL_NOTE = ("C40_partial: two defects found by this check were repaired in /repo (\"fix: _flex_bending read flex_bending out of bounds for interpolated (trilinear) shells\", \"fix: flex broadphase culled real capsule and cylinder contacts (wrong bounding radius)\"; their trigger inputs run first as regression cases); still present and reported as findings: <edge stiffness/damping> forces missing, 3D flex vs ellipsoid and 1D flex element contacts missing, flex gap semantics, spring force of 1D interpolated flexes. smooth._flex_vertices/_flex_nodes/_flex_edges and passive._flex_elasticity/_flex_bending are NOT in Gen (the translator rejects the `for f in range(nflex): ... break` idiom whose "
+LEVEL_NOTE = ("C40_partial: two defects found by this check were repaired in /repo (\"fix: _flex_bending read flex_bending out of bounds for interpolated (trilinear) shells\", \"fix: flex broadphase culled real capsule and cylinder contacts (wrong bounding radius)\"; their trigger inputs run first as regression cases); still present and reported as findings (one stable id per root cause): <edge stiffness/damping> forces missing, 3D flex vs ellipsoid and 1D flex element contacts missing, cylinder-triangle distance wrong (checked against an independent sampled distance), contacts of world-pinned vertices with static geoms, flex gap semantics, spring force of 1D interpolated flexes, stale flex fields of rigid contacts; deep interpenetration of 3D flex elements (> 25% of the element size) is outside the comparable domain (skipped and counted). smooth._flex_vertices/_flex_nodes/_flex_edges and passive._flex_elasticity/_flex_bending are NOT in Gen (the translator rejects the `for f in range(nflex): ... break` idiom whose "
               "loop variable is used after the loop), the element narrowphase kernels (EPA workspace) neither; they are covered by the differential oracle only. Trusted: Lean kernel + Mathlib, translator.")
 ASSUMPTIONS = ["float32 tolerances: positions/lengths 1e-4 relative, forces 5e-3 relative to the largest reference entry", "flexedge_velocity / flexedge_length compared only where MuJoCo computes them "
                "(C skips edge quantities of interpolated flexes and velocities of flexes without edge equality/damping)",
@@ -138,6 +138,47 @@ REGRESSION = [
 ]
 
 
+CELLCOUNTS = ["1 1 2", "2 1 3", "3 2 1", "1 3 2"]
+
+
+def cell_cases(rng, seed):
+  """interpolated (dof=trilinear) flexes with UNEQUAL cell counts per axis, in all orders; squeezed between a floor and a ceiling plane (contacts identical in
+  both implementations -> qacc comparable) or touched by a sphere. The plane heights come from the flex's own vertex extent (one MuJoCo compile)."""
+  import mujoco
+  out = []
+  for k, cc in enumerate(CELLCOUNTS):
+    dim = 3 if (k + seed) % 2 == 0 else 2
+    count = "4 3 5" if dim == 3 else "4 5 1"
+    touch = "planes" if (k + seed // 2) % 2 == 0 else "sphere"
+    q = rng.normal(size=4)
+    q /= np.linalg.norm(q)
+    if dim == 2 and abs(abs(q[0]) - 1) < 1e-3:
+      q = np.array([0.37317, 0.25384, 0.12587, 0.88344])   # MuJoCo 3.13 rejects an un-rotated 2D trilinear grid
+    rad = float(rng.uniform(0.008, 0.02))
+    el = f'<elasticity young="{rng.uniform(5e3, 3e4):.4g}" poisson="{rng.uniform(0, 0.4):.3g}" damping="{rng.uniform(0.001, 0.02):.3g}"' + (' thickness="0.02"' if dim == 2 else "") + "/>"
+    def xml_of(z, geoms):
+      return (f'<mujoco><option jacobian="sparse" cone="{"elliptic" if k % 2 else "pyramidal"}"/><worldbody>{geoms}<flexcomp name="F" type="grid" dim="{dim}" count="{count}" spacing=".08 .08 .08" '
+              f'radius="{rad:.4g}" mass="1" pos="0 0 {z:.5g}" quat="{_f(q)}" dof="trilinear" cellcount="{cc}">{el}<contact selfcollide="none"/></flexcomp></worldbody></mujoco>')
+    try:
+      mjm = mujoco.MjModel.from_xml_string(xml_of(1.0, ""))
+    except ValueError:
+      continue
+    mjd = mujoco.MjData(mjm)
+    mujoco.mj_forward(mjm, mjd)
+    zs = mjd.flexvert_xpos[:, 2]
+    lo, hi = float(zs.min()) - 1.0, float(zs.max()) - 1.0          # extent relative to the flexcomp origin
+    pen = 0.02
+    z = -lo + rad - pen                                              # lowest vertex sphere 2 cm into the floor: several vertices touch
+    if touch == "planes":
+      geoms = f'<geom type="plane" size="2 2 .1"/><geom type="plane" size="2 2 .1" pos="0 0 {z + hi + rad - pen:.5g}" zaxis="0 0 -1"/>'
+    else:
+      top = mjd.flexvert_xpos[int(np.argmax(zs))]
+      geoms = f'<geom type="plane" size="2 2 .1"/><geom type="sphere" size=".04" pos="{top[0]:.4g} {top[1]:.4g} {z + hi + rad + 0.04 - 0.012:.5g}"/>'
+    feat = {"dim": dim, "dof": "trilinear", "selfcollide": "none", "edgeeq": False, "elasticity": True, "geoms": [touch], "cellcount": cc}
+    out.append((xml_of(z, geoms), feat, 0.003, 0.3))
+  return out
+
+
 def _contacts_c(mjd):
   rows = []
   for c in mjd.contact[: mjd.ncon]:
@@ -167,7 +208,8 @@ def _run(ctx, ncases, rec):
   rng = np.random.default_rng(ctx.seed * 1000 + 40)
   acc = Acc()
 
-  def one(c, fixed=None):
+  def one(c, fixed=None, r=None):
+    rr = rng if r is None else r
     if fixed is None:
       xml, feat = gen_model(rng)
       pert, vel = 0.01, 0.5
@@ -179,12 +221,12 @@ def _run(ctx, ncases, rec):
       acc.hit("mjcf-rejected:" + str(e).split("\n")[0][:48])
       return
     mjd = mujoco.MjData(mjm)
-    mjd.qpos[:] = mjm.qpos0 + pert * rng.standard_normal(mjm.nq)
+    mjd.qpos[:] = mjm.qpos0 + pert * rr.standard_normal(mjm.nq)
     for j in range(mjm.njnt):
       if mjm.jnt_type[j] == 0:
         a = mjm.jnt_qposadr[j]
         mjd.qpos[a + 3: a + 7] /= np.linalg.norm(mjd.qpos[a + 3: a + 7])
-    mjd.qvel[:] = vel * rng.standard_normal(mjm.nv)
+    mjd.qvel[:] = vel * rr.standard_normal(mjm.nv)
     mujoco.mj_forward(mjm, mjd)
     replay = dict(xml=xml, qpos=mjd.qpos.tolist(), qvel=mjd.qvel.tolist())
     try:
@@ -215,8 +257,13 @@ def _run(ctx, ncases, rec):
       bad = not np.allclose(a, b, rtol=rtol, atol=atol * (1 + np.abs(b).max()), equal_nan=False)
       return bad, float(np.nanmax(np.abs(a - b))) if not np.isnan(a).all() else float("nan")
 
+    nfind0 = len(acc.findings)
     # 1. kinematics
     bad, mx = differs(d.flexvert_xpos.numpy()[0], mjd.flexvert_xpos, 1e-4, 1e-5)
+    if not bad and "cellcount" in feat:
+      mx = float(np.abs(d.flexvert_xpos.numpy()[0].astype(np.float64) - mjd.flexvert_xpos).max())
+      bad = mx > 1e-4
+      acc.hit(f"cellcount {feat['cellcount']} dim{feat['dim']} {feat['geoms'][0]}")
     if bad:
       acc.find(f"flexvert_xpos differs from mj_forward (max |d| {mx:.3g}; {tag})", "smooth._flex_vertices", "flexvert-xpos", **replay)
     if interp == 0:
@@ -304,27 +351,90 @@ def _run(ctx, ncases, rec):
           break
       if pc:
         acc.hit("plane-vertex-contacts-compared")
-    # other flex-geom contacts: presence and deepest penetration per (geom, flex)
+    # other flex-geom contacts.  Every finding id below names ONE root cause, independent of the geom type.
+    dim = int(feat["dim"])
+    nve = dim + 1
+    eda = int(mjm.flex_elemdataadr[0])
+    gnames = ["plane", "hfield", "sphere", "capsule", "ellipsoid", "cylinder", "box", "mesh"]
+    edge_len = float(np.mean(mjm.flexedge_length0)) if mjm.nflexedge else 0.1
+    tol = 2.5 * float(mjm.flex_radius[0]) + 2e-3
+
+    def verts_of(r):       # local vertex ids the contact's flex side consists of
+      if r["vert"][1] >= 0:
+        return [r["vert"][1]]
+      e = r["elem"][1]
+      return [int(v) for v in mjm.flex_elem[eda + e * nve: eda + (e + 1) * nve]] if e >= 0 else []
+
+    def c_filters(r):      # MuJoCo skips an element against a geom when one of the element's vertices is attached to (a body welded to) the geom's body
+      gb = mjm.body_weldid[mjm.geom_bodyid[r["geom"][0]]]
+      return any(mjm.body_weldid[mjm.flex_vertbodyid[vadr + v]] == gb for v in verts_of(r))
+    gc = [r for r in cc if r["geom"][0] >= 0 and gt[r["geom"][0]] != 0]
+    gw = [r for r in cw if r["geom"][0] >= 0 and gt[r["geom"][0]] != 0]
+    # (a) contacts of elements/vertices that share a body with the geom (in practice: a world-pinned vertex against a static geom)
+    shared = [r for r in gw if c_filters(r)]
+    if shared and not any(c_filters(r) for r in gc):
+      r = shared[0]
+      acc.find(f"mujoco_warp reports {len(shared)} contact(s) between geom {r['geom'][0]} ({gnames[int(gt[r['geom'][0]])]}) and a flex element/vertex attached to the geom's own (static) body "
+               f"(dist {r['dist']:.4g}); MuJoCo filters such pairs and reports none (dim {dim})", "collision_flex.flex_collision", "pinned-vertex-static-geom-contact", **replay)
+      gw = [r for r in gw if not c_filters(r)]
+    # (b) 2D flex triangle against a CYLINDER: both sides are checked against an independent sampled triangle-cylinder distance
+    cyl = [g for g in range(mjm.ngeom) if gt[g] == 5]
+    if dim == 2 and cyl and interp == 0:
+      V = np.asarray(mjd.flexvert_xpos)[vadr: vadr + int(mjm.flex_vertnum[0])]
+      uu, vv = np.meshgrid(np.linspace(0, 1, 48), np.linspace(0, 1, 48))
+      mk = (uu + vv) <= 1.0
+      uu, vv = uu[mk], vv[mk]
+
+      def true_dist(g, e):
+        a, b, c = V[[int(v) for v in mjm.flex_elem[eda + e * 3: eda + e * 3 + 3]]]
+        pts = a[None] + uu[:, None] * (b - a)[None] + vv[:, None] * (c - a)[None]
+        loc = (pts - mjd.geom_xpos[g]) @ mjd.geom_xmat[g].reshape(3, 3)
+        dr, dz = np.hypot(loc[:, 0], loc[:, 1]) - mjm.geom_size[g][0], np.abs(loc[:, 2]) - mjm.geom_size[g][1]
+        sd = np.where((dr <= 0) & (dz <= 0), np.maximum(dr, dz), np.hypot(np.maximum(dr, 0), np.maximum(dz, 0)))
+        return float(sd.min()) - float(mjm.flex_radius[0])
+      badw = [(r, true_dist(r["geom"][0], r["elem"][1])) for r in gw if r["geom"][0] in cyl and r["elem"][1] >= 0]
+      badw = [(r, t) for r, t in badw if abs(r["dist"] - t) > 5e-3]
+      kw_ = {(r["geom"][0], r["elem"][1]) for r in gw}
+      missc = [r for r in gc if r["geom"][0] in cyl and (r["geom"][0], r["elem"][1]) not in kw_ and r["dist"] < -3e-3 and abs(r["dist"] - true_dist(r["geom"][0], r["elem"][1])) < 3e-3]
+      if badw or missc:
+        if badw:
+          r, t = badw[0]
+          msg = f"cylinder-triangle contact (geom {r['geom'][0]}, element {r['elem'][1]}) has dist {r['dist']:.4g}; sampled true distance {t:.4g} (MuJoCo agrees with the sampled value)"
+        else:
+          r = missc[0]
+          msg = f"cylinder-triangle contact (geom {r['geom'][0]}, element {r['elem'][1]}) with true/MuJoCo dist {r['dist']:.4g} is not reported"
+        acc.find(msg + f"; {len(badw)} wrong, {len(missc)} missing", "collision_primitive_core.cylinder_triangle", "cylinder-triangle-distance-wrong", **replay)
+      acc.hit("cylinder-triangle-checked-against-sampled-distance")
+      gc = [r for r in gc if r["geom"][0] not in cyl]
+      gw = [r for r in gw if r["geom"][0] not in cyl]
+    # (c) presence and deepest penetration per (geom, flex)
     def summary(rows):
       out = {}
       for r in rows:
-        if r["geom"][0] >= 0 and gt[r["geom"][0]] != 0:
-          k = (r["geom"][0], max(r["flex"]))
-          out[k] = min(out.get(k, 1e9), r["dist"])
+        k = (r["geom"][0], max(r["flex"]))
+        out[k] = min(out.get(k, 1e9), r["dist"])
       return out
-    sc_, sw_ = summary(cc), summary(cw)
-    tol = 2.5 * float(mjm.flex_radius[0]) + 2e-3
+    sc_, sw_ = summary(gc), summary(gw)
     for k in sorted(set(sc_) | set(sw_)):
-      gname = ["plane", "hfield", "sphere", "capsule", "ellipsoid", "cylinder", "box", "mesh"][int(gt[k[0]])]
+      gname = gnames[int(gt[k[0]])]
       a, b = sw_.get(k), sc_.get(k)
-      if a is None and b is not None and b < -tol:
-        acc.find(f"MuJoCo reports a {gname}-flex contact with penetration {b:.4g} (dim {feat['dim']}), mujoco_warp reports none", "collision_flex.flex_collision", f"missed-{gname}-dim{feat['dim']}", **replay)
+      differs_ = (a is None and b is not None and b < -tol) or (a is not None and b is not None and abs(a - b) > tol + 0.25 * abs(b))
+      if dim == 1 and differs_ and (a is None or a > b):
+        # 1D flex: mujoco_warp collides the vertex spheres only, MuJoCo the capsule elements between them
+        acc.find(f"1D flex: MuJoCo's deepest {gname}-element penetration is {b:.4g}, mujoco_warp (vertex spheres only) reports {a if a is None else round(a, 5)}", "collision_flex.flex_collision",
+                 "missed-geom-dim1-elements", **replay)
+      elif dim == 3 and b is not None and -b > 0.25 * edge_len and gname != "ellipsoid":
+        # deep interpenetration of a solid element (more than a quarter of the element size): the penetration depth of tetrahedron vs geom (MuJoCo: convex-convex) and of
+        # its faces vs geom (mujoco_warp) are different quantities, and a tetrahedron wholly inside the geom has no face contact at all: outside the comparable domain
+        acc.hit("dim3-deep-interpenetration: not comparable")
+      elif a is None and b is not None and b < -tol:
+        acc.find(f"MuJoCo reports a {gname}-flex contact with penetration {b:.4g} (dim {dim}), mujoco_warp reports none", "collision_flex.flex_collision", f"missed-{gname}-dim{dim}", **replay)
       elif b is None and a is not None and a < -tol:
-        acc.find(f"mujoco_warp reports a {gname}-flex contact with penetration {a:.4g} (dim {feat['dim']}), MuJoCo reports none", "collision_flex.flex_collision", f"extra-{gname}-dim{feat['dim']}", **replay)
+        acc.find(f"mujoco_warp reports a {gname}-flex contact with penetration {a:.4g} (dim {dim}), MuJoCo reports none", "collision_flex.flex_collision", f"extra-{gname}-dim{dim}", **replay)
       elif a is not None and b is not None:
         acc.hit("geom-flex-pair-both")
-        if abs(a - b) > tol + 0.25 * abs(b):
-          acc.find(f"deepest {gname}-flex penetration differs: {a:.4g} vs MuJoCo {b:.4g} (dim {feat['dim']})", "collision_flex.flex_collision", f"depth-{gname}-dim{feat['dim']}", **replay)
+        if differs_:
+          acc.find(f"deepest {gname}-flex penetration differs: {a:.4g} vs MuJoCo {b:.4g} (dim {dim})", "collision_flex.flex_collision", f"depth-{gname}-dim{dim}", **replay)
     # self collisions: presence
     selfc = [r for r in cc if r["geom"] == (-1, -1)]
     selfw = [r for r in cw if r["geom"] == (-1, -1)]
@@ -335,12 +445,36 @@ def _run(ctx, ncases, rec):
                f"selfcollide-dim{feat['dim']}", **replay)
     if selfc or selfw:
       acc.hit("self-collision-present")
+    # 5. qacc: comparable when both implementations built the same constraint problem (same contacts as multisets, same row count) and nothing above differed
+    keyc = collections.Counter((r["geom"], r["flex"], r["elem"], r["vert"]) for r in _contacts_c(mjd) if r["dist"] < r["im"] and not (_is_flex(r) and r["geom"][0] >= 0 and gt[r["geom"][0]] == 0 and static_pair(r)))
+    keyw = collections.Counter((r["geom"], r["flex"] if _is_flex(r) else (-1, -1), r["elem"] if _is_flex(r) else (-1, -1), r["vert"] if _is_flex(r) else (-1, -1)) for r in allw
+                               if not (_is_flex(r) and r["geom"][0] >= 0 and gt[r["geom"][0]] == 0 and static_pair(r)))
+    # ... and with the same contact geometry (rigid convex pairs go through different narrowphase algorithms: property C04, not this one)
+    def geo(rows, iswarp):
+      return sorted((r["geom"], round(r["dist"], 4)) + tuple(np.round(r["pos"], 3).tolist()) for r in rows if iswarp or r["dist"] < r["im"])
+    ga, gb = geo(allw, True), geo(_contacts_c(mjd), False)
+    samegeo = len(ga) == len(gb) and all(x[0] == y[0] and np.allclose(x[1:], y[1:], atol=2e-3) for x, y in zip(ga, gb))
+    if keyc == keyw and not samegeo:
+      acc.hit("qacc-not-compared: contact geometry differs")
+    if len(acc.findings) == nfind0 and keyc == keyw and samegeo and int(mjd.nefc) == n and len(keyc) == int(mjd.ncon):
+      qa, qb = d.qacc.numpy()[0].astype(np.float64), np.asarray(mjd.qacc)
+      if not np.allclose(qa, qb, rtol=2e-2, atol=2e-2 * (1 + np.abs(qb).max())):
+        acc.find(f"qacc differs from mj_forward although contacts and row counts agree (max |d| {np.abs(qa - qb).max():.3g}, reference max {np.abs(qb).max():.3g}; {tag}, {feat})",
+                 "forward.forward", "qacc-vs-mujoco", **replay)
+      acc.hit("qacc-compared")
     acc.sample({"features": {k: v for k, v in feat.items()}, "nv": int(mjm.nv), "ncon_C": int(mjd.ncon), "ncon_W": len(_contacts_w(d))})
 
   def scenario():
     for k, fx in enumerate(REGRESSION):
       one(-1 - k, fixed=fx)
       acc.hit("regression-case")
+    # still-present defect that random models rarely hit: a sphere touching a 1D flex between two vertices (finding `missed-geom-dim1-elements` while the defect exists)
+    one(-50, fixed=('<mujoco><worldbody><geom type="sphere" size=".03" pos="0.05 0 0.99"/><flexcomp name="F" type="grid" dim="1" count="3 1 1" spacing=".1 .1 .1" radius=".01" mass="1" '
+                    'pos="0 0 1"><contact selfcollide="none"/></flexcomp></worldbody></mujoco>',
+                    {"dim": 1, "dof": "full", "selfcollide": "none", "edgeeq": False, "elasticity": False, "geoms": ["sphere"], "fixed": "sphere-mid-edge"}, 0.0, 0.0), r=np.random.default_rng(1))
+    rc = np.random.default_rng(ctx.seed * 1000 + 4040)     # own stream: this fixed family must not shift the random cases of a seed
+    for k, fx in enumerate(cell_cases(rc, ctx.seed)):
+      one(-100 - k, fixed=fx, r=rc)
     for c in range(ncases):
       one(c)
 
@@ -352,10 +486,11 @@ def _run(ctx, ncases, rec):
   return acc, kc
 
 
-RULE = ("random <flexcomp type=grid> of dim 1/2/3 (dof full/radial/trilinear/quadratic), random radius/spacing/orientation, <edge equality|stiffness|damping>, <elasticity young poisson damping thickness "
+RULE = ("in every run: the repaired-defect regression inputs, then dof=trilinear flexes (dim 2 and 3) with UNEQUAL cellcount per axis in all orders (1 1 2 / 2 1 3 / 3 2 1 / 1 3 2) squeezed between a floor "
+        "and a ceiling plane or touched by a sphere (flexvert_xpos to 1e-4 absolute, contacts, qacc); then random <flexcomp type=grid> of dim 1/2/3 (dof full/radial/trilinear/quadratic), random radius/spacing/orientation, <edge equality|stiffness|damping>, <elasticity young poisson damping thickness "
         "elastic2d>, <contact selfcollide internal margin gap condim priority friction solmix contype conaffinity activelayers>, pinned vertices, over a floor plane with 0-3 static or free rigid geoms "
         "(sphere/capsule/box/cylinder/ellipsoid); perturbed qpos, random qvel; forward() vs mujoco.mj_forward: flexvert_xpos, flexedge_length/velocity, qfrc_spring/damper/passive, ne and the multiset of "
-        "edge-equality rows, plane-vertex contacts exactly (geometry and mixed parameters), other flex contacts by presence/deepest penetration per (geom, flex); put_model rejections and overflow are "
+        "edge-equality rows, qacc whenever both sides built the same contacts and row count, plane-vertex contacts exactly (geometry and mixed parameters), other flex contacts by presence/deepest penetration per (geom, flex); put_model rejections and overflow are "
         "counted and skipped; distinct = (case, dim-dof, selfcollide, edge equality, elasticity, geom types)")
 
 
